@@ -7,6 +7,7 @@ import Driver.C20
 import Driver.C01
 import Driver.C13
 import Driver.C08
+import Driver.C12
 open AITB
 
 def handleLine (line : String) : String :=
@@ -22,6 +23,7 @@ def handleLine (line : String) : String :=
   | "C01" :: rest => DrvC01.handle rest
   | "C13" :: rest => DrvC13.handle rest
   | "C08" :: rest => DrvC08.handle rest
+  | "C12" :: rest => DrvC12.handle rest
   | _ => "bad-op"
 
 partial def loop (h : IO.FS.Stream) (out : IO.FS.Stream) : IO Unit := do
